@@ -13,7 +13,6 @@ import (
 	"github.com/shutter-network/shutter/shlib/puredkg"
 	"github.com/shutter-network/shutter/shlib/shcrypto"
 
-	"github.com/shutter-network/rolling-shutter/rolling-shutter/keyper/dkgphase"
 	"github.com/shutter-network/rolling-shutter/rolling-shutter/keyper/shutterevents"
 	"github.com/shutter-network/rolling-shutter/rolling-shutter/shmsg"
 
@@ -33,6 +32,9 @@ type Strategy struct {
 	EarlyAccuse  bool // send the (false) accusation already in the dealing phase
 	EarlyApology bool // send an unsolicited apology with a made-up value in the dealing phase
 	Noise        bool // messages for a wrong eon, naming outsiders, naming itself
+	// EvalsFirst: the evaluations are sent before the commitment, 1 = earlier in the same block,
+	// 2 = one block earlier (both still in the dealing phase unless Late)
+	EvalsFirst int
 	// UnsolicitedApology: an apology nobody asked for, sent in the apologizing phase towards the next
 	// keyper, revealing "zero" (the value 0), "one" or "order-1"; "" for none
 	UnsolicitedApology string
@@ -51,6 +53,9 @@ func (s Strategy) String() string {
 	if s.Noise {
 		x += " noise"
 	}
+	if s.EvalsFirst > 0 {
+		x += fmt.Sprintf(" evals-first=%d", s.EvalsFirst)
+	}
 	if s.UnsolicitedApology != "" {
 		x += " unsolicited-apology=" + s.UnsolicitedApology
 	}
@@ -60,29 +65,29 @@ func (s Strategy) String() string {
 // Byz is a keyper played by the harness: it follows the protocol with the library's PureDKG and
 // perturbs what it sends according to its strategy.
 type Byz struct {
-	Idx     int
-	S       Strategy
-	sim     *Sim
-	nonce   uint64
-	seen    int64 // blocks processed
-	keypers []common.Address
-	encKeys map[common.Address]*ecies.PublicKey
-	pure    *puredkg.PureDKG
-	eon     uint64
-	h0      int64
-	phases  *dkgphase.PhaseLength
-	dealt   bool
-	accused bool
-	apolog  bool
-	checked bool
-	voted   bool
-	commit  puredkg.PolyCommitmentMsg
-	evals   []puredkg.PolyEvalMsg
-	Sent    []string
+	Idx           int
+	S             Strategy
+	sim           *Sim
+	nonce         uint64
+	seen          int64 // blocks processed
+	keypers       []common.Address
+	encKeys       map[common.Address]*ecies.PublicKey
+	pure          *puredkg.PureDKG
+	eon           uint64
+	h0            int64
+	dealt         bool
+	commitPending bool
+	accused       bool
+	apolog        bool
+	checked       bool
+	voted         bool
+	commit        puredkg.PolyCommitmentMsg
+	evals         []puredkg.PolyEvalMsg
+	Sent          []string
 }
 
 func (s *Sim) NewByz(idx int, st Strategy) *Byz {
-	return &Byz{Idx: idx, S: st, sim: s, nonce: 1 << 40, encKeys: map[common.Address]*ecies.PublicKey{}, phases: dkgphase.NewConstantPhaseLength(s.PhaseLen)}
+	return &Byz{Idx: idx, S: st, sim: s, nonce: 1 << 40, encKeys: map[common.Address]*ecies.PublicKey{}}
 }
 
 func (b *Byz) send(msg *shmsg.Message, label string) {
@@ -118,7 +123,7 @@ func (b *Byz) handleEvents(height int64, evs []abcitypes.Event) {
 			}
 			p := puredkg.NewPureDKG(x.Eon, uint64(len(b.keypers)), uint64(b.sim.T), uint64(b.Idx))
 			b.pure, b.eon, b.h0 = &p, x.Eon, x.Height
-			b.dealt, b.accused, b.apolog = false, false, false
+			b.dealt, b.accused, b.apolog, b.commitPending = false, false, false, false
 		case *shutterevents.PolyCommitment:
 			if b.pure == nil || x.Eon != b.eon {
 				continue
@@ -191,13 +196,17 @@ func (b *Byz) Step(_ context.Context) {
 		return
 	}
 	next := c.Height() + 1 // height of the open block
-	phase := b.phases.GetPhaseAtHeight(next, b.h0)
+	phase := PhaseAt(next, b.h0, b.sim.PhaseLen)
 	if b.pure.Phase == puredkg.Off {
 		// prepare the honest dealing material once
 		cm, evs, err := b.pure.StartPhase1Dealing()
 		if err == nil {
 			b.commit, b.evals = cm, evs
 		}
+	}
+	if b.commitPending {
+		b.commitPending = false
+		b.dealCommitment()
 	}
 	dealNow := (!b.S.Late && phase >= puredkg.Dealing) || (b.S.Late && phase >= puredkg.Accusing)
 	if !b.dealt && dealNow && b.pure.Polynomial != nil {
@@ -289,6 +298,20 @@ func (b *Byz) extras() {
 }
 
 func (b *Byz) deal() {
+	switch b.S.EvalsFirst {
+	case 1:
+		b.dealEvals()
+		b.dealCommitment()
+	case 2:
+		b.dealEvals()
+		b.commitPending = true
+	default:
+		b.dealCommitment()
+		b.dealEvals()
+	}
+}
+
+func (b *Byz) dealCommitment() {
 	degree := shcrypto.DegreeFromThreshold(uint64(b.sim.T))
 	switch b.S.Commitment {
 	case "correct":
@@ -301,6 +324,9 @@ func (b *Byz) deal() {
 		p, _ := shcrypto.RandomPolynomial(rand.Reader, degree)
 		b.send(shmsg.NewPolyCommitment(b.eon, p.Gammas()), "commitment-second-different")
 	}
+}
+
+func (b *Byz) dealEvals() {
 	var receivers []common.Address
 	var encrypted [][]byte
 	for _, ev := range b.evals {
